@@ -97,7 +97,7 @@ def cfg(tier):
             "recording_frames": [16, 33, 64],
             "resample_rates": [8, 10, 12, 4000, 8000, 22050, 44100], "resample_lengths": [1, 2, 7, 16, 33],
             "resample_first": [0, 4], "resample_channels": [1, 2],
-            "spec_frames": [64], "spec_first": [0, 8], "spec_channels": [1, 2],
+            "spec_frames": [33, 64], "spec_first": [0, 8], "spec_channels": [1, 2],  # 33 < the 37-sample window: a source shorter than one window
             "spec_windows": ["4", "8", "16", "9/2", "29/4", "37"], "spec_hops": ["1", "2", "4", "3/2", "11/4"],
         }
     return {
